@@ -99,7 +99,7 @@ func runC15(tier string) int {
 		flagsets = append(flagsets, []string{"-fmt", "goimports"}, []string{"-fmt", "noop", "-skip-ensure"})
 		ifsets = append(ifsets, []string{"G", "E", "B"})
 	}
-	ifsets = append(ifsets, []string{"A", "W"})
+	ifsets = append(ifsets, []string{"A", "W"}, []string{"A", "CC"})
 	for _, f := range files {
 		for _, is := range ifsets {
 			for _, fl := range flagsets {
